@@ -50,7 +50,7 @@ pub fn spec() -> PropSpec {
     PropSpec {
         id: "C06",
         level: "exploration",
-        rule: "message sequences encoded by RefChunkEnc, a foreign sender that per message draws a chunk stream id (2..8, 63, 64, 65, 318..321, 65598, 65599, any; 2-byte or legal 3-byte form), a wanted header format 0..3 lowered to the most compressed LEGAL format for that chunk stream's history, format-3 continuation chunks with the extended field repeated (rarely format-0 continuation), zero-length messages and in-band Set Chunk Size; fields from a per-case palette so formats 2 and 3 are frequent; delivered under a generated partition (optionally with empty polls); sub-check 'foreign-stream-kilobyte-chunks': chunk sizes 4095..65536, messages up to 70000 bytes. Non-trivial = the stream contains a format-3 new message, a format 1/2 with extended delta, a 2/3-byte csid, a multi-chunk message with extended timestamp, or a zero-length message with a compressed header; distinct = distinct (ops, partition)",
+        rule: "message sequences encoded by RefChunkEnc, a foreign sender that per message draws a chunk stream id (2..8, 63, 64, 65, 318..321, 65598, 65599, any; 2-byte or legal 3-byte form), a wanted header format 0..3 lowered to the most compressed LEGAL format for that chunk stream's history, format-3 continuation chunks with the extended field repeated (rarely format-0 continuation), zero-length messages and in-band Set Chunk Size; fields from a per-case palette so formats 2 and 3 are frequent; delivered under a generated partition (optionally with empty polls); sub-check 'foreign-stream-many-chunk-streams': 63..4097 distinct chunk stream ids, then compressed follow-ups on older ones; sub-check 'foreign-stream-kilobyte-chunks': chunk sizes 4095..65536, messages up to 70000 bytes. Non-trivial = the stream contains a format-3 new message, a format 1/2 with extended delta, a 2/3-byte csid, a multi-chunk message with extended timestamp, or a zero-length message with a compressed header; distinct = distinct (ops, partition)",
         assumptions: vec![
             "RefChunkEnc/RefChunkDec transcribe RTMP 1.0 section 5.3.1; they are self-checked against each other on every case (disagreement = harness error, exit 2)",
             "messages are sent one after another (interleaving is C16); senders that omit the extended timestamp on format-3 chunks are outside the statement",
@@ -61,6 +61,7 @@ pub fn spec() -> PropSpec {
                 let n = if ctx.tier == Tier::Thorough { 30 } else { 12 };
                 (gen::foreign_ops(n, 8, 3000), gen::partition()).prop_map(|(ops, partition)| Case { ops, partition }).boxed()
             }, 300_000, 6_000_000, eval),
+            PropCheck::new("foreign-stream-many-chunk-streams", |_| (gen::foreign_ops_many_streams(), gen::partition_large()).prop_map(|(ops, partition)| Case { ops, partition }).boxed(), 1_500, 40_000, eval),
             PropCheck::new("foreign-stream-kilobyte-chunks", |_| (gen::foreign_ops_large(6), gen::partition_large()).prop_map(|(ops, partition)| Case { ops, partition }).boxed(), 6_000, 200_000, eval),
             crate::targets::corpus_check(&["foreign_stream"]),
         ],
